@@ -67,16 +67,21 @@ def skey(v, nan_ident=False):
     if t is CodeType:
         return code_key(v, nan_ident)
     if dataclasses.is_dataclass(v) and not isinstance(v, type):
-        return (
+        fs = dataclasses.fields(v)
+        key = (
             "D",
             t.__name__,
-            tuple(
-                [
-                    (f.name, skey(getattr(v, f.name), nan_ident))
-                    for f in dataclasses.fields(v)
-                ]
-            ),
+            tuple([(f.name, skey(getattr(v, f.name), nan_ident)) for f in fs]),
         )
+        d = getattr(v, "__dict__", None)
+        if d is not None and len(d) != len(fs):
+            # anything stored on the instance besides its fields (hidden caches) is part
+            # of its state: an API call that adds it has modified the object
+            names = set(f.name for f in fs)
+            extra = tuple(sorted((k, short(x, 60)) for k, x in d.items() if k not in names))
+            if extra:
+                key = key + (("<extra-instance-attributes>", extra),)
+        return key
     if t is list:
         return ("L", tuple([skey(x, nan_ident) for x in v]))
     if t is dict:
